@@ -110,6 +110,32 @@ def c16(cx):
                     if g != want:
                         cx.violations.append({'kind': 'int-literal', 'program': v, 'prop': 'C16', 'field': 'immediate', 'where': dec,
                                               'detail': f"{v!r} parses to {g}, the decimal spelling {dec!r} to {want}", 'src': v, 'env': None})
+    # operand LISTS are positional: `switch a a b`, `match x y x`, `pushints 1 1 2`, `intcblock 7 7` keep every operand, repeated ones
+    # included, in order - in the parsed instruction and in its printed form (own tokenisation of the source line: the words after
+    # the opcode)
+    stats['operand_lists'] = 0
+    for _ in range(80 if cx.quick() else 1200):
+        op = rng.choice(['switch', 'match', 'pushints', 'pushbytess', 'intcblock', 'bytecblock'])
+        n = rng.randrange(1, 7)
+        if op in ('switch', 'match'):
+            pool_ = ['a', 'b', 'done', 'l1']; words = [rng.choice(pool_[:rng.randrange(1, 5)]) for _ in range(n)]; want = words
+        elif op in ('pushints', 'intcblock'):
+            vals = [rng.choice([0, 1, 7, 255]) for _ in range(n)]; words = [str(v) for v in vals]; want = vals
+        else:
+            words = [rng.choice(['0x01', '0x02', '0xff00']) for _ in range(n)]; want = words
+        line = op + ' ' + ' '.join(words)
+        stats['operand_lists'] += 1
+        try:
+            ins, _, _ = quiet(parse_line, line)
+            got = next((v for k, v in vars(ins).items() if k in ('_labels', '_int_list', '_bytes_list', '_constants')), None)
+            printed = str(ins).split()[1:]
+            again, _, _ = quiet(parse_line, str(ins))
+            ok = list(got) == list(want) and printed == words and fingerprint(again) == fingerprint(ins)
+        except BaseException as e:  # noqa
+            got, printed, ok = type(e).__name__, None, False
+        if not ok:
+            cx.violations.append({'kind': 'operand-list', 'program': line, 'prop': 'C16', 'field': 'immediates', 'where': op,
+                                  'detail': f"{line!r}: operands {want} parse to {got}, printed as {printed}", 'src': line, 'env': None})
     # byte literals: hex / base64 / base32 / quoted forms of the same bytes
     import base64
     for _ in range(100 if cx.quick() else 1500):
@@ -184,6 +210,36 @@ def c16(cx):
         if got != expect:
             cx.violations.append({'kind': 'line-numbers', 'program': "\n".join(src_lines), 'prop': 'C16', 'field': 'line', 'where': 'lines',
                                   'detail': f"recorded lines {got}, source lines {expect}", 'src': "\n".join(src_lines), 'env': None})
+    # whole generated programs (canonical spellings): every instruction prints as the words of its source line - an own tokenisation
+    # of the source, independent of tealer's parser, so that operands dropped, merged or reordered by the parser show even when
+    # the printed form is a fixpoint
+    import gen as G
+    stats['program_tokens'] = 0
+    progs = [G.fragment(cx.seed, 5000 + i, max_stmts=4)[0] for i in range(12 if cx.quick() else 150)] + \
+            [G.layout(cx.seed, i) for i in range(12 if cx.quick() else 150)] + [G.dense(cx.seed, i) for i in range(12 if cx.quick() else 150)] + \
+            [G.edgeroles(cx.seed, i)[0] for i in range(0, G.N_EDGEROLES, 5 if cx.quick() else 1)]
+    for src in progs:
+        try:
+            t, _, _ = quiet(parse_teal, src)
+        except BaseException:
+            continue
+        lines_ = src.split("\n")
+        for ins in t.instructions:
+            words = lines_[ins.line - 1].split('//')[0].split() if 0 < ins.line <= len(lines_) else None
+            stats['program_tokens'] += 1
+            def canon(ws):
+                # the assembler's integer spellings: 0x.. hexadecimal, a leading 0 octal, digits decimal
+                out = []
+                for w in ws or []:
+                    if re.fullmatch(r'0[xX][0-9a-fA-F]+', w): out.append(int(w, 16))
+                    elif re.fullmatch(r'0[0-7]+', w): out.append(int(w, 8))
+                    elif re.fullmatch(r'\d+', w): out.append(int(w))
+                    else: out.append(w)
+                return out
+            if words is None or canon(words) != canon(str(ins).split()):
+                cx.violations.append({'kind': 'program-tokens', 'program': src, 'prop': 'C16', 'field': 'immediates', 'where': f"line {ins.line}",
+                                      'detail': f"line {ins.line} is {lines_[ins.line - 1]!r}; the instruction recorded for it prints as {str(ins)!r}", 'src': src, 'env': None})
+                break
     # unknown opcodes verbatim
     for w in ("frobnicate 1 2", "intc0", "txnx Fee"):
         ins, _, _ = quiet(parse_line, w)
@@ -197,7 +253,7 @@ def c16(cx):
         bad = True
     if bad:
         cx.known_seen['F19'] = f"`method \"sig\"` prints as {str(f19)!r} (quotes dropped), which does not parse back"
-    cx.evaluations += stats['variants'] + stats['int_spellings'] + stats['byte_forms'] + stats['programs'] + stats['quoted_literals'] + stats['immediate_spellings']
+    cx.evaluations += stats['variants'] + stats['int_spellings'] + stats['byte_forms'] + stats['programs'] + stats['quoted_literals'] + stats['immediate_spellings'] + stats['operand_lists'] + stats['program_tokens']
     for l in pool[:3000]:
         cx.distinct.add(l.split()[0] if l.split() else l)
     cx.samples += [{'line': pool[3], 'variants': list(variants(pool[3]))}, {'int spellings of 255': ['255', '0xff', '0377']}]
